@@ -17,12 +17,19 @@ class C06(InterpProp):
     rule = ("one run = one generated flow hierarchy (start/await/activate/when/groups, depth <= 4, <= 7 flow definitions, UMIM actions with references) driven by seeded user events and action events; "
             "fault kinds per action: never finished, finished twice, finished before started, finished 30 s late, no Started, Finished after Stop. evaluations = processed external events; "
             "non-trivial = steps at which a flow instance finished or failed while it still had running children or unfinished actions; distinct = distinct normalised interpreter states at such steps")
-    expected_probes = ["parent_ended_with_live_children", "parent_ended_with_unfinished_action", "stop_sent", "finished_after_stop_delivered", "activated_flow_restarted", "tie_break_decided"]
+    expected_probes = ["parent_ended_with_live_children", "parent_ended_with_unfinished_action", "stop_sent", "finished_after_stop_delivered", "started_delivered_after_stop", "activated_flow_restarted", "tie_break_decided"]
     quick_runs = 2400
     thorough_runs = 200000
 
     def generate(self, d, index, tier):
-        sc = gen_interp_scenario(d, with_faults=True, allow_vars=d.chance(0.5, "vars"))
+        if d.chance(0.3, "scope_race"):
+            # actions started inside when / or-group scopes, with Started events that cross the Stop on the wire
+            sc = gen_interp_scenario(d, with_faults=False, allow_vars=False, action_scope_bias=True)
+            sc["client"]["faults"] = [f for f in ("started_late", "never", "late") if d.chance(0.7, "srf", f)] or ["started_late"]
+            sc["client"]["fault_bias"] = 4
+            sc["flavour"] = "scope_race"
+            return sc
+        sc = gen_interp_scenario(d, with_faults=True, allow_vars=d.chance(0.5, "vars"), finishing_main=True)
         return sc
 
     def execute(self, sc):
@@ -67,6 +74,8 @@ class C06(InterpProp):
                 out.probe("stop_sent")
             if rec.tag and rec.tag[0] == "finished-after-stop":
                 out.probe("finished_after_stop_delivered")
+            if rec.tag and rec.tag[0].startswith("started") and auto.state.get(rec.tag[1], {}).get("stops"):
+                out.probe("started_delivered_after_stop")
             out.state_sigs.append(I.state_signature(st))
 
         res = IR.run_program(sc, hooks=[hook], tr=tr)
